@@ -122,7 +122,8 @@ def gen_history(rng, tier):
         else:
             steps.append(["get", rng.choice(ds_targets), rng.random() < 0.5])
     return {"mode": "history", "points": points, "classes": classes, "extra_ds": extra, "parsers": parsers,
-            "combiners": combiners, "steps": steps}
+            "combiners": combiners, "steps": steps,
+            "combiner_points": dict((str(i), [rng.randrange(npts)]) for i in range(len(combiners)) if rng.random() < 0.5)}
 
 
 def gen_content(rng, tier):
@@ -227,6 +228,8 @@ def run_history(spec, ctx):
             pcomps.append(c)
         for i, deps in enumerate(spec["combiners"]):
             dd = [pcomps[j] for j in deps]
+            # a combiner built on parsers AND directly on specs: a filter added through it reaches the specs on both levels
+            dd += [pts[k] for k in (spec.get("combiner_points") or {}).get(str(i), []) if k < len(pts)]
 
             def C(*a):
                 return a
